@@ -49,9 +49,9 @@ func (interleave) Runs(tier string) int64 {
 
 func (interleave) Meta() core.EngineMeta {
 	return core.EngineMeta{
-		Rule: "Per-PID packet queues of a reference stream model are merged by the multiplex scheduler under the model's schedule and 2-3 further seeded order-preserving schedules (uniform, bursty, starvation, reverse priority; PAT and PMT PIDs keep their relative order), each PID is also demuxed alone (PMT PIDs together with PID 0), null / adaptation-only / transport-error packets are inserted at seeded positions, and one non-PAT PID is corrupted (payload garbage and/or packet loss). Per PID the delivered sequence must be identical in every variant. evaluations = demux executions; distinct = abstract fingerprint (stream-kind multiset, schedule modes, insertion kinds, corruption mode and kind of the corrupted PID); non-trivial = at least two PIDs.",
-		Real: []string{"astits.Demuxer and everything below it (incl. the package-level sync.Pool)"},
-		Stub: []string{"refts reference multiplexer", "multiplex scheduler", "PacketChannel (insertions, single-PID corruption)", "SimReader (fault-free)"},
+		Rule:       "Per-PID packet queues of a reference stream model are merged by the multiplex scheduler under the model's schedule and 2-3 further seeded order-preserving schedules (uniform, bursty, starvation, reverse priority; PAT and PMT PIDs keep their relative order), each PID is also demuxed alone (PMT PIDs together with PID 0), null / adaptation-only / transport-error packets are inserted at seeded positions, and one non-PAT PID is corrupted (payload garbage and/or packet loss). Per PID the delivered sequence must be identical in every variant. evaluations = demux executions; distinct = abstract fingerprint (stream-kind multiset, schedule modes, insertion kinds, corruption mode and kind of the corrupted PID); non-trivial = at least two PIDs.",
+		Real:       []string{"astits.Demuxer and everything below it (incl. the package-level sync.Pool)"},
+		Stub:       []string{"refts reference multiplexer", "multiplex scheduler", "PacketChannel (insertions, single-PID corruption)", "SimReader (fault-free)"},
 		FaultKinds: []string{"reschedule", "solo", "insert-null", "insert-afonly", "insert-tei", "corrupt-garbage", "corrupt-drop"},
 		Assumptions: []string{
 			"schedules preserve each PID's packet order and the relative order of PID 0 and PMT PIDs (a PMT PID is only recognised after a PAT listing it was delivered)",
